@@ -41,6 +41,7 @@ Definition mon_owner (inp : list Z) : bool :=
   | [2; ch; func; aware] => z2b aware            (* a send on a command channel gives up when the torrent is closed *)
   | 3 :: n :: es => acyclic (edges_of es)
   | [4; entries; budget] => entries + 1 <=? budget  (* the whole table was handed over *)
+  | [6; func; buffered] => z2b buffered          (* the loop can answer a request whose sender has given up *)
   | _ => false
   end.
 
